@@ -116,7 +116,12 @@ def sites(fb, scope_keys, with_overflow=False):
                     dis = "constant index %s < constant length %s" % (ix, ln) if ln is not None and ix is not None and 0 <= ix < ln else None
                     yield {"fn": k, "block": bi, "kind": "K3", "what": "bounds", "discharged": dis}
                 elif a in ("DivisionByZero", "RemainderByZero"):
-                    dv = C.eval_const(f, t[5][0]) if t[5] else None
+                    # the assert's operand is the dividend; the divisor is what the condition compares with 0
+                    dv = None
+                    cl = C.op_local(t[2])
+                    cd = C.single_def(f, cl) if cl is not None else None
+                    if cd is not None and cd[0] == "=" and cd[3][0] == "bin" and cd[3][1] == "Eq":
+                        dv = C.eval_const(f, cd[3][2])
                     dis = "constant non-zero divisor %s" % dv if dv not in (None, 0) else None
                     yield {"fn": k, "block": bi, "kind": "K4", "what": "div", "discharged": dis}
                 elif a in ("Overflow:Shl", "Overflow:Shr"):
